@@ -49,6 +49,12 @@ CALLS = [
     ("format", {"select": [{"value": "order"}, {"value": "t.my col"}, {"value": "a"}], "from": "select"}, {"should_quote": "never"}),
     ("parse_mysql", "select a+b-c", {}),
     ("parse", "select a+b-c", {"null": None, "all_columns": "*"}),
+    # other values of all_columns than the two documented ones, next to a statement that only one of the two grammars accepts
+    ("parse", "select * x from t", {"all_columns": "*"}),
+    ("parse", "select * x from t", {"all_columns": True}),
+    ("parse", "select * x from t", {}),
+    ("parse_mysql", "select * x from t", {"all_columns": 1}),
+    ("parse_mysql", "select * x from t", {"all_columns": "*"}),
     # a call inside a window frame bound is simplified while the grammar is still matching (windows._to_bound_call): it sees whatever
     # callback and rename map are installed at that moment
     ("parse", "select sum(x) over (order by d range between interval 1 day preceding and current row) from t", {}),
